@@ -55,6 +55,27 @@ ADD = {
  "C19": ("; widen-after-shift rule (H5), no-alias rule for Export (H6), same-delta and field-coverage rules (H1b H2)", "Also: bucket arithmetic is shifted at 64 bits; Export copies the counts."),
 }
 
+ADD2 = {
+ "C01": "; reentrancy of StartGroup operations (R3), split outputs (P7), loop-variable capture (R2)",
+ "C02": "; R2 loop-variable capture, U9 stage machine of Producer.Join",
+ "C03": "; P7",
+ "C05": "; tracker bound/order/floor rules (X2c X2d X2e), dependent option defaults (N5)",
+ "C06": "; X2c X2d X2e",
+ "C08": "; K2 guard form, G1 through methods",
+ "C09": "; X2c-e, D7, X10, and the fun.WaitGroup protocol (W1-W8)",
+ "C10": "; X4/X4b for the collector of the service",
+ "C11": "; fun.WaitGroup protocol and Queue wait rules (W1-W9)",
+ "C12": "; X4b only-nil-dropped, X11 no composed ers.Error, X12 no-alias unwinding",
+ "C13": "; L6c sent closures, L7 adt.Once fields, L4p panic-safe unlock",
+ "C14": "; L4p",
+ "C15": "; L7/U2b (adt.Once), U9 (Join), fun.WaitGroup protocol for the StartGroup waiter",
+ "C16": "; Q8 members are born members, Q9 EOF after advance, Q6b",
+ "C17": "; Q6b must-pass-through of the stable sort",
+ "C18": "; Q9, R1",
+ "C19": "; H7 Merge replay",
+ "C20": "; W9b closed-last in the iterator loop, L5 write-once element.list",
+}
+
 NA_REASON = {}
 DEFAULT_NA = "static rules for this property are not built yet in this round (see DESIGN.md §5 for the planned structural clauses); no other technique is substituted"
 
@@ -63,6 +84,8 @@ for pid in ids:
     if pid not in CLAIMED:
         continue
     tech, text, note, ref = CLAIMED[pid]
+    if pid in ADD2:
+        tech += ADD2[pid]
     if pid in ADD:
         tech += ADD[pid][0]
         if ADD[pid][1]:
